@@ -259,3 +259,54 @@ def value_display(value_src):
         if need not in out:
             raise EncodingError(f"Display arm of Value::{need} not found")
     return out
+
+
+# ------------------------------------------------------------------------------------------------------------
+EVAL_CALL = r"(\w+)\.eval_rec\(context\)\s*\.await\?"
+
+
+def arm_application(arm, field_kinds=None):
+    """Split a strict arm into "evaluate the sub-expressions" and "apply the operator to the sub-results".
+
+    Returns dict(template=<Rust expression with {0},{1}.. for the value of the i-th evaluated sub-expression, in the order of
+    the pattern's bindings>, fn=<name of the function applied>, plain=<template is exactly fn(v..) in some order>,
+    evaluated=[binding names in evaluation order]).
+    Understood shapes:   f(a.eval_rec(context).await?, b.eval_rec(context).await?[, other bindings])
+                         { let (x, y) = helper(context, a, b).await?; f(x, y[, ..]) }   (helper = any async fn taking context)
+    """
+    rhs = arm["text"].split("=>", 1)[1].strip().rstrip(",").strip()
+    mb = re.fullmatch(r"\{\s*([^;]*?)\s*\}", rhs, re.S)
+    if mb and "let " not in rhs:
+        rhs = mb.group(1).strip()      # `{ expr }`
+    binds = arm["binds"]
+    seq = re.findall(EVAL_CALL, rhs)
+    if seq and set(seq) <= set(binds) and len(set(seq)) == len(seq) and "let " not in rhs:
+        tpl = rhs
+        for name in seq:
+            tpl = re.sub(rf"\b{name}\.eval_rec\(context\)\s*\.await\?", "{%d}" % [b for b in binds if b in seq].index(name), tpl, count=1)
+        if "context" in tpl:
+            raise EncodingError(f"arm still mentions the context after removing the evaluations: {rhs[:100]}")
+        fn = re.match(r"\s*(\w+)\s*\(", tpl)
+        plain = bool(re.fullmatch(r"\s*\w+\(\s*(\{\d\}\s*,?\s*)+\)\s*", re.sub(r"\s+", " ", tpl)))
+        return {"template": tpl.replace("{", "{{").replace("}", "}}").replace("{{0}}", "{0}").replace("{{1}}", "{1}").replace("{{2}}", "{2}"),
+                "fn": fn.group(1) if fn else None, "plain": plain, "evaluated": seq}
+    m = re.fullmatch(r"\{\s*let\s+(\(?[\w\s,]+\)?)\s*=\s*(.*?)\.await\?\s*;\s*(.*?)\s*\}", rhs, re.S)
+    if m and "context" in m.group(2) and "context" not in m.group(3):
+        pat = [x.strip() for x in m.group(1).strip("() ").split(",") if x.strip()]
+        args = re.findall(r"\b(\w+)\b", m.group(2).split("(", 1)[1]) if "(" in m.group(2) else []
+        evaluated = [a for a in args if a in binds]
+        if len(pat) != len(evaluated):
+            raise EncodingError(f"arm binds {len(pat)} values from {len(evaluated)} sub-expressions: {rhs[:100]}")
+        tail = m.group(3)
+        tpl = tail
+        # the i-th bound value stands for the i-th sub-expression handed to the helper (the arm slice decides that this is so)
+        order_in_binds = [b for b in binds if b in evaluated]
+        for k, v in enumerate(pat):
+            idx = order_in_binds.index(evaluated[k])
+            tpl = re.sub(rf"\b{v}\b", "\x00%d\x01" % idx, tpl)
+        tpl = tpl.replace("{", "{{").replace("}", "}}")
+        tpl = re.sub("\x00(\\d)\x01", r"{\1}", tpl)
+        fn = re.match(r"\s*(\w+)\s*\(", tail)
+        plain = bool(re.fullmatch(r"\s*\w+\(\s*(\w+\s*,?\s*)+\)\s*", tail)) and all(x in pat for x in re.findall(r"\b(\w+)\b", tail.split("(", 1)[1]))
+        return {"template": tpl, "fn": fn.group(1) if fn else None, "plain": plain, "evaluated": evaluated}
+    raise EncodingError(f"strict arm of an unknown shape: {rhs[:120]}")
